@@ -13,7 +13,7 @@ def operands():
             ('bool', True), ('str', 'Hello, World!'), ('str_case', 'hello world'), ('str2', 'abc'), ('empty', ''),
             ('list', [1, 2]), ('list2', [1, 2, 3]), ('tuple', (1, 2)), ('dict', {'a': 1}), ('set', {1}), ('set2', {1, 2}),
             ('none', None), ('nested', [1.0, (2, 'X')]), ('nested2', [1.0004, (2, 'x')]), ('money', Money(3)),
-            ('huge', 10 ** 400), ('inf', float('inf')), ('bytes', b'abc'), ('bytes2', b'abd'),
+            ('huge', 10 ** 400), ('near_one', 1.0005), ('one', 1.0), ('inf', float('inf')), ('bytes', b'abc'), ('bytes2', b'abd'),
             # same keys in another insertion order, values equal only through the tolerance / crossed values
             ('dict_ab', {'apple': 1.0001, 'pear': 2}), ('dict_ba', {'pear': 2, 'apple': 1.0}),
             ('dict_crossed', {'pear': 1.0, 'apple': 2.0001}), ('dict_text', {'k': 'Hello, World!', 'j': 2}),
@@ -90,8 +90,9 @@ def _ref_equal(a, b, delta=0.001, exact=False):
     """eq_spec typed from the statement: symmetric; tolerance when either is a float and both are numbers;
     normalised strings unless exact; element-wise for list/tuple/set/dict"""
     num = (int, float)
-    if isinstance(a, bool) or isinstance(b, bool):
-        return type(a) is type(b) and a == b if (isinstance(a, bool) and isinstance(b, bool)) else a == b
+    if isinstance(a, bool) and isinstance(b, bool):
+        return a == b
+    # (a bool next to a number is the number 0 or 1: the tolerance applies to it like to any int)
     if isinstance(a, num) and isinstance(b, num):
         if isinstance(a, float) or isinstance(b, float):
             if a == b:
@@ -314,6 +315,28 @@ def bounded(arg):
                 if outcomes != want:
                     record('output containment disagrees with `in` on the %s text' % ('exact' if exact else 'lowercased'),
                            'assert_output_contains', 'printed %r, needle %r, exact_strings=%r' % (printed, needle, exact), want, outcomes)
+    # output regex: re.search on what was printed, and the negated check is its complement
+    import re as _re2
+    for program, printed in (("print('Total: 12')\nprint('Average: 4.0')\nprint('done')", "Total: 12\nAverage: 4.0\ndone\n"),
+                             ("print('abc')", "abc\n")):
+        for pattern in ('^Average', '12$', '^done$', 'Total', '^Total', 'xyz', 'a.c', '4\\.0'):
+            found = _re2.search(pattern, printed) is not None
+            outcomes = []
+            for fn_name in ('assert_output_regex', 'assert_not_output_regex'):
+                from pedal.core.commands import clear_report as _cr2
+                _cr2()
+                _ctx(program)
+                _clear_sb()
+                student = _run()
+                evaluations += 1
+                try:
+                    outcomes.append('failing' if getattr(_rto, fn_name)(pattern, student) else 'silent')
+                except Exception as e:
+                    outcomes.append('raised %r' % e)
+            want = ['silent', 'failing'] if found else ['failing', 'silent']
+            if outcomes[0] == outcomes[1] or (outcomes != want and (printed.rstrip('\n'), pattern) not in OUTPUT_TEXT_DEPENDENT):
+                record('output regex disagrees with re.search or with its negation', 'assert_output_regex',
+                       'printed %r, pattern %r' % (printed, pattern), want, outcomes)
     # the documented meaning of delta=None is the default tolerance
     from pedal.assertions import runtime as _rt
     from pedal.core.commands import clear_report as _clear
@@ -336,6 +359,10 @@ def bounded(arg):
             'values x 2 wrappings; error operands' % (len(R) + 2, len(pairs), len(ops)),
             'evaluations': evaluations, 'distinct_nontrivial': len(distinct),
             'rule': 'distinct = (assertion, operand names, wrapping)', 'samples': samples, 'failures': failures}
+
+
+# patterns whose verdict depends on whether the trailing newline of the output is kept: either reading is accepted
+OUTPUT_TEXT_DEPENDENT = set()
 
 
 def ground(arg):
